@@ -39,8 +39,8 @@ ASSUMPTIONS = [
     "(the API identifies a statement by value)",
 ]
 BOUNDS = {
-    "quick": "full rhs menu: length<=3; structural menu {leaf,s,s+t}: length<=3; ODE menu: length<=3 (+ODE)",
-    "thorough": "full rhs menu: length<=3; structural menu: length<=4; ODE menu: length<=3 (3 rate tuples) and length<=4 (1 rate tuple)",
+    "quick": "full rhs menu: length<=3; structural menu {leaf,s,s+t}: length<=3; copy-chain menu {P,s}: length<=5; ODE menu: length<=3 (+ODE)",
+    "thorough": "full rhs menu: length<=3; structural menu: length<=4; copy-chain menu: length<=6; ODE menu: length<=3 (3 rate tuples) and length<=4 (1 rate tuple)",
 }
 
 SYMS = ["A", "B", "C"]
@@ -78,6 +78,11 @@ def rhs_menu(kind):
         for s, t in (("A", "B"), ("B", "A"), ("A", "C")):
             out.append(("pw", s, t))
         out.append(("pw", "A", "P"))
+    elif kind == "chain":
+        # pure copy chains: long dependency chains through several symbols (depth of the dependency graph, not width)
+        out.append(("leaf", "P"))
+        for s in SYMS:
+            out.append(("sym", s))
     elif kind == "struct":
         out.append(("leaf", "P"))
         out.append(("leaf", "X"))
@@ -746,8 +751,8 @@ def check_model_case(prog, layout):
 
 # ----------------------------------------------------------------------------- runner API
 PLANS = {
-    "quick": [("fullq", 3, False), ("struct", 3, False), ("ode", 2, True), ("ode1", 3, True)],
-    "thorough": [("full", 3, False), ("struct", 4, False), ("ode", 3, True), ("ode1", 4, True)],
+    "quick": [("fullq", 3, False), ("struct", 3, False), ("chain", 5, False), ("ode", 2, True), ("ode1", 3, True)],
+    "thorough": [("full", 3, False), ("struct", 4, False), ("chain", 6, False), ("ode", 3, True), ("ode1", 4, True)],
 }
 
 
